@@ -774,6 +774,62 @@ def range_readers(rep: Report) -> None:
         raise AnalysisError('no reader of the Range header found at all')
 
 
+def stored_length(rep: Report) -> None:
+    """R13.6  the on-demand handler serves ranges of a stored file against `blob.size`, the length recorded when
+    the file was written (upload, or the rewrite by modify_media_file).  A length taken while the writing handle
+    is still open misses what sits in its buffer: Content-Range then names a shorter resource, suffix ranges are
+    counted from the wrong end, and satisfiable ranges in the tail get 416.  Typestate over every function of
+    the package that opens a file for writing: between the open and the close of the handle nothing observes
+    the path (stat / getsize / re-open / digest).  Zero occurrences expected; an embedded example is recognised
+    on every run."""
+    from ..idioms import _OPEN_EXAMPLE, observed_while_written
+    rid = 'R13.6'
+    if len(observed_while_written(ast.parse(_OPEN_EXAMPLE))[1]) != 1:
+        raise AnalysisError('R13.6: the embedded example of a file observed while it is written is not recognised')
+    total = 0
+    in_models = 0
+    for rel in rep.repo.py_files('dashlive'):
+        tree = rep.repo.tree(rel)
+        for fn in [x for x in ast.walk(tree) if isinstance(x, (ast.FunctionDef, ast.AsyncFunctionDef))]:
+            n, found = observed_while_written(fn)
+            if not n:
+                continue
+            total += n
+            if rel.startswith('dashlive/server/models/'):
+                in_models += n
+            construct = f'{rel}::{fn.name}'
+            if not found:
+                rep.ok(rid, construct, 'file observed after its writer closed', f'{n} write-open block(s)')
+            for blk, path, use in found:
+                rep.fail(rid, construct, f'{path} observed while written',
+                         f'`{short(use, 50)}` (line {use.lineno}) reads the size / content of `{path}` inside the block that '
+                         f'still holds it open for writing (line {blk.lineno}): bytes in the handle\'s buffer are not in the file '
+                         'yet, the recorded length is short - ranges of the stored file are then computed against the wrong '
+                         'total length', use)
+    if in_models < 1:
+        raise AnalysisError('R13.6: the rewrite of a stored media file (a write-open in dashlive/server/models) was not found')
+    # the length that is recorded is that of the file: Blob(size=<path>.stat().st_size) for the path that was written
+    for rel in ('dashlive/server/models/mediafile.py', 'dashlive/server/models/stream.py'):
+        tree = rep.repo.tree(rel)
+        for fn in [x for x in ast.walk(tree) if isinstance(x, (ast.FunctionDef, ast.AsyncFunctionDef))]:
+            for c in [x for x in ast.walk(fn) if isinstance(x, ast.Call) and (call_name(x) or '').split('.')[-1] == 'Blob']:
+                kw = {k.arg: k.value for k in c.keywords}
+                if 'size' not in kw or 'filename' not in kw:
+                    continue
+                from ..core import subst_locals
+                sz = norm(subst_locals(fn, kw['size'], allow_calls=True))
+                fnm = norm(subst_locals(fn, kw['filename'], allow_calls=True))
+                construct = f'{rel}::{fn.name}'
+                m = re.fullmatch(r'(.+)\.stat\(\)\.st_size', sz)
+                base = m.group(1) if m else None
+                stem = fnm[:-5] if fnm.endswith('.name') else fnm
+                if base is not None and stem in base:       # the path that is measured is (a folder joined with) the named file
+                    rep.ok(rid, construct, 'Blob size is the size of the named file', f'size={sz} filename={fnm}')
+                else:
+                    rep.fail(rid, construct, 'Blob size is the size of the named file',
+                             f'the Blob for `{fnm}` is recorded with size `{sz}`, not with the size of that file on disk', c)
+
+
 def analyse(rep: Report) -> None:
     rep.explanation = (
         'Path-sensitive zone-domain abstract interpretation of RequestHandlerBase.get_http_range '
@@ -786,6 +842,8 @@ def analyse(rep: Report) -> None:
     rep.rule('R13.3', 'Content-Range text is built from the values returned', floor=2)
     rep.rule('R13.4', 'callers map ValueError to 400 and slice with an inclusive end', floor=7)
     rep.rule('R13.5', 'only get_http_range / has_http_range read the Range header', floor=2)
+    rep.rule('R13.6', 'the stored length of a media file is taken from the file after its writer has closed it', floor=3)
     analyse_function(rep)
     analyse_callers(rep)
     range_readers(rep)
+    stored_length(rep)
